@@ -54,7 +54,7 @@ pub fn determinism(seed: u64, verif_dir: &str) -> i32 {
         programs.push(Program { files: gen::generate(&mut grng, &fenced), annotate: i % 2 == 0, features: vec![], label: format!("g{i}"), path_mode: String::new() });
     }
     let configs = vec![12usize; programs.len()];
-    let mut scenarios = c12::build_scenarios(seed, &programs, &configs, &mut rng.fork(3));
+    let mut scenarios = c12::build_scenarios(seed, &programs, &configs, &mut rng.fork(3), &fenced);
     scenarios.truncate(n12);
     let a = par_map(&scenarios, 16, |_, sc| job_sig(&c12::run_scenario(sc)));
     let b = par_map(&scenarios, 5, |_, sc| job_sig(&c12::run_scenario(sc)));
